@@ -49,6 +49,7 @@ pub fn site_name(s: Site) -> &'static str {
         Site::TimerPoll => "TimerPoll",
         Site::Reset => "Reset",
         Site::RegTxWaker => "RegTxWaker",
+        Site::StLoad => "StLoad",
     }
 }
 
